@@ -17,7 +17,7 @@ func TestC04(t *testing.T) {
 
 func TestC07(t *testing.T) {
 	st := StatsFor("C07")
-	mode := TreeGenMode{Help: 0, Bad: 2, Garbage: 2, Version: 0, Mutate: 4, Policies: true}
+	mode := TreeGenMode{Help: 0, Bad: 2, Garbage: 2, Version: 0, Mutate: 4, Policies: true, SubPol: 3}
 	rapid.Check(t, func(rt *rapid.T) {
 		c := GenTreeCase(rt, mode)
 		Report(rt, "C07", "tree", c, CheckTree("C07", c, st))
@@ -26,9 +26,20 @@ func TestC07(t *testing.T) {
 
 func TestC14(t *testing.T) {
 	st := StatsFor("C14")
-	mode := TreeGenMode{Help: 7, Bad: 1, Garbage: 1, Version: 2, Mutate: 4, Policies: true}
+	mode := TreeGenMode{Help: 7, Bad: 1, Garbage: 1, Version: 2, Mutate: 4, Policies: true, SubPol: 2, Warmup: 0}
 	rapid.Check(t, func(rt *rapid.T) {
 		c := GenTreeCase(rt, mode)
 		Report(rt, "C14", "tree", c, CheckTree("C14", c, st))
+	})
+}
+
+// TestC07Values: conversion failures of the built-in typed containers (not only of custom value types) follow the policy.
+func TestC07Values(t *testing.T) {
+	st := StatsFor("C07")
+	mode := ValueGenMode{EnvChance: 2, CliMax: 3, ValidOnly: false, CliZero: 1}
+	rapid.Check(t, func(rt *rapid.T) {
+		c := GenValueCase(rt, mode)
+		c.Policy = intn(rt, 3, "policy")
+		Report(rt, "C07", "valuespolicy", c, CheckValuesPolicy(c, st))
 	})
 }
